@@ -52,7 +52,7 @@ FIELD_KIND = {"works_for": ("person", "org", "single"), "head_of": ("chief", "or
               "wholly_owned_by": ("org", "org", "list"), "under": ("unit", "org", "list"),
               "chairs": ("chair", "org", "single"), "attends": ("delegate", "org", "list"),
               "leads": ("convener", "org", "list"), "runs": ("boss", "org", "single"),
-              "attendees": ("org", "attendee", "list")}
+              "attendees": ("org", "attendee", "list"), "guides": ("chair", "org", "list"), "sees": ("delegate", "org", "list")}
 
 
 def gen_population(rng):
@@ -210,7 +210,7 @@ def exhaustive(tier, ctx):
 def witnesses():
     return {
         "role-taker-subclass-super-property": {"pop": [["v0", "Delegate", None], ["o0", "Org", None], ["h0", "Chair", "v0"]],
-                                               "facts": [["h0", "chairs", "o0", "assign"]]},
+                                               "facts": [["h0", "chairs", "o0", "assign"], ["h0", "guides", "o0", "append"]]},
         "assignment-drops-inferred-values": {"pop": [["p0", "Person", None], ["p1", "Person", None], ["o0", "Org", None]],
                                              "facts": [["p0", "works_for", "o0", "assign"], ["o0", "members", "p1", "assign_keep"]]},
         "constructor-sub-property-before-super-field": {"pop": [["p0", "Person", None], ["o0", "Org", None]],
